@@ -363,7 +363,9 @@ var repairTrailingZeros = repair{"number-literal-trailing-zeros", func(root exce
 	ch := false
 	walk(root, func(n excellent.Expression) {
 		if t, ok := n.(*excellent.NumberLiteral); ok {
-			if d, err := decimal.NewFromString(t.Value.Describe()); err == nil && d.Exponent() != t.Value.Native().Exponent() {
+			// only where the printed text denotes the SAME number with another scale (1.50 -> 1.5); a printer that loses digits
+			// is not this finding
+			if d, err := decimal.NewFromString(t.Value.Describe()); err == nil && d.Exponent() != t.Value.Native().Exponent() && d.Equal(t.Value.Native()) {
 				t.Value = types.NewXNumber(d)
 				ch = true
 			}
